@@ -130,4 +130,23 @@ def specTrim (side : TrimSide) (len : TrimLength) (ast : Ast) (v : List Char) : 
 def specCase (asts : List Ast) (subject : List Char) : Option Nat :=
   asts.findIdx? (fun a => globMatch a subject)
 
+/-- `case` with `|`-alternatives: an alternative counts when it is inside the defined notation and denotes
+    the subject; the first item with such an alternative is selected -/
+def altMatches (subject : List Char) (a : Ast) : Bool := astDefined a && globMatch a subject
+
+def specCaseSelect (items : List (List Ast)) (subject : List Char) : Option Nat :=
+  items.findIdx? (fun alts => alts.any (altMatches subject))
+
+/-- which bodies run: from the selected item on, `;&` runs the next body unconditionally, `;;&` goes on
+    testing, `;;` stops -/
+def specCaseExec (subject : List Char) : Bool → Nat → List (List Ast × CaseCont) → List Nat
+  | _, _, [] => []
+  | falling, i, (alts, c) :: rest =>
+    if falling || alts.any (altMatches subject) then
+      i :: (match c with
+        | .brk => []
+        | .fallThrough => specCaseExec subject true (i + 1) rest
+        | .cont => specCaseExec subject false (i + 1) rest)
+    else specCaseExec subject false (i + 1) rest
+
 end YashModel.Fnmatch
